@@ -458,6 +458,12 @@ func Execute(t *testing.T, sc Scenario, c *Case, recording bool, tapeSeed uint64
 			}
 			if res.StepCap {
 				v.Inconclusive = "step cap reached"
+				if j, ok := sc.(StepCapJudge); ok {
+					if viol := j.StepCapReached(c, env, s.Last()); viol != nil {
+						v.Inconclusive = ""
+						v.Violations = append(v.Violations, *viol)
+					}
+				}
 			}
 			env.mu.Lock()
 			v.Violations = append(v.Violations, env.viol...)
@@ -498,6 +504,13 @@ func Execute(t *testing.T, sc Scenario, c *Case, recording bool, tapeSeed uint64
 		envOut.NW.Release()
 	}
 	return v
+}
+
+// StepCapJudge is implemented by scenarios for which a run that exhausts its
+// budget of scheduling steps is a verdict, not an accident: the workload is
+// small, so somebody is spinning. It is told which goroutine ran last.
+type StepCapJudge interface {
+	StepCapReached(c *Case, env *Env, last zzsim.GInfo) *Violation
 }
 
 // PostChecker is implemented by scenarios whose oracle has a part that runs
